@@ -31,7 +31,10 @@ TRUSTED = ["CPython `re` on the six patterns of expandTableFile, `str.split/stri
            "table texts are ASCII with \\n line ends; white space is blank and tab",
            "the answers of the environment (findSetupProduct, getSetupVersion, getDependencies) are data to the model: they are "
            "obtained from the real Eups in the same process right before the real call and cross-checked against the answers "
-           "recorded during the call"]
+           "recorded during the call; since round 3 the set-up versions are also compared with the model of findSetupVersion",
+           "the grouping of passed-through lines into `if` chains (ExpandTable.groupPlain) is unverified code whose answer is checked "
+           "(text reproduced, items well formed) before C17_exact_actions_blocks is applied; the theorems of the C11 model "
+           "(C11_blocks_text, C11_written_command) are used as proved"]
 ASSUMPTIONS = ["version expressions in generated tables are well formed, so Eups.version_match (used only for a warning) does not raise",
                "build-time setup and exact re-setup are one command each, in a fresh process, default product disabled",
                "conflict-free = every request in the closure resolves to the one build version of its product (by construction of the 'cf' stream)"]
